@@ -6,7 +6,7 @@ metas = [json.load(open(f)) for f in sorted(glob.glob('/verif/seeded/*/meta.json
 def first(m):
     n = m.get('note', '')
     if n.startswith('Missed'): return 'missed'
-    if n.startswith('First evaluation was INCONCLUSIVE'): return 'inconclusive'
+    if n.startswith('First evaluation'): return 'inconclusive'
     return 'caught'
 def block(ms):
     out = []
